@@ -4,6 +4,7 @@ from . import core
 from .core import cz, copt, clist
 
 IMPORTS = "Require Import Hdl21.Base.PyInt Hdl21.Spec.PySlice Hdl21.Model.Slice Hdl21.Model.Resolve Hdl21.Corr.C03."
+LOOP_IMPORTS = IMPORTS + "\nRequire Import Hdl21.Model.C03Loop Hdl21.Corr.C03Loop."
 
 
 def c_index(ix):
@@ -180,6 +181,13 @@ def run(run, tier, seed, replay=None):
     cases = [c_case(e, o) for e, o in zip(nested_jobs, nested_out)]
     bad = core.coq_eval_cases("C03", "nested", IMPORTS, "nested_case", cases, "run_cases chk_nested", chunk=400)
     struct = core.coq_eval_cases("C03", "nstruct", IMPORTS, "nested_case", cases, "run_cases chk_structure", chunk=400)
+    # the PUBLIC width property of every Slice / Concat node, read before elaboration (references unresolved)
+    def c_pub(o):
+        return "None" if o.get("pub") is None else f"(Some {clist(o['pub'], copt)})"
+    pcases = [f"({c_sx(e)}, {c_pub(o)})" for e, o in zip(nested_jobs, nested_out)]
+    pbad = core.coq_eval_cases("C03", "npub", LOOP_IMPORTS, "pubw_case", pcases, "run_cases chk_pubw", chunk=400)
+    pub_nodes = sum(len(o["pub"]) for o in nested_out if o.get("pub") is not None)
+    pub_concat_ref = sum(1 for e in nested_jobs if concat_with_ref_part(e))
     acc = sum(1 for o in nested_out if o["flats"] is not None)
     run.stream("nested-resolve", len(cases), len({json.dumps(e) for e in nested_jobs if nontrivial_expr(e)}),
                accepted=acc, rejected=len(cases) - acc,
@@ -187,11 +195,20 @@ def run(run, tier, seed, replay=None):
                with_bundleref=sum(1 for e in nested_jobs if '"bref"' in json.dumps(e)),
                depth3=sum(1 for e in nested_jobs if expr_size(e) >= 5),
                structure_differs_from_model=len(struct),
+               public_width_nodes_compared=pub_nodes, concats_with_unresolved_reference_part=pub_concat_ref,
                rule="non-trivial = at least 3 nodes (nested slice/concat); distinct by expression")
     report(run, "nested", bad, nested_jobs, nested_out, size=lambda e: (expr_size(e), len(json.dumps(e))),
            repro=lambda e: f"build {json.dumps(e)} in a Module, connect it to a port, h.to_proto, read the target")
+    report(run, "pubwidth", pbad, nested_jobs, [dict(pub=o.get("pub"), width=o["width"], err=o["err"]) for o in nested_out],
+           size=lambda e: (expr_size(e), len(json.dumps(e))),
+           repro=lambda e: f"build {json.dumps(e)} in a Module and read .width of every Slice / Concat in it (pre-order) before elaborating: "
+                           f"each must be the number of bits selected")
+    if pub_concat_ref < (40 if quick else 1000) or pub_nodes < (1500 if quick else 40000):
+        run.violation("C03:coverage:pubwidth", f"coverage target missed: {pub_concat_ref} expressions with a Concat that has an unresolved reference part, "
+                      f"{pub_nodes} public widths compared", dict(kind="coverage"), found_input=False)
     run.sample(dict(stream="nested", case=nested_jobs[-1], impl=nested_out[-1]))
-    run.coverage["traces_validated_against_impl"] = len(inner_jobs) + len(nested_jobs)
+    n_loop = run_loop(run, tier, seed, W)
+    run.coverage["traces_validated_against_impl"] = len(inner_jobs) + len(nested_jobs) + n_loop
 
 
 def corpus_nested():
@@ -222,3 +239,312 @@ def report(run, stream, bad, jobs, outs, size, repro):
         run.violation(f"C03:{stream}:tie", f"model and implementation differ on {json.dumps(jobs[i])} (property holds on every explored input)",
                       dict(kind="correspondence-broken", stream=stream, case=jobs[i], impl=outs[i], reproducer=repro(jobs[i]),
                            disagreeing_cases=len(v2), theorem="C03 correspondence stream " + stream), found_input=False)
+
+
+def concat_with_ref_part(e):
+    """some Concat of the expression has a port / bundle reference as a direct part"""
+    t = e[0]
+    if t == "sl":
+        return concat_with_ref_part(e[1])
+    if t == "cat":
+        return any(p[0] in ("pref", "bref") or concat_with_ref_part(p) for p in e[1])
+    return False
+
+
+# ------------------------------------------------------------------------------------------------
+# stream loop: port connections that mention one another's port references (Corr/C03Loop.v)
+# ------------------------------------------------------------------------------------------------
+def sel_index(r, pw, w):
+    """An index selecting exactly w bits out of pw; descending steps about as often as ascending ones."""
+    if w == 1 and r.random() < 0.35:
+        i = r.randint(0, pw - 1)
+        return ["i", i if r.random() < 0.6 else i - pw]
+    steps = [s for s in (1, -1, 2, -2, 3, -3) if (w - 1) * abs(s) + 1 <= pw]
+    st = r.choices(steps, [3 if s == 1 else 3 if s == -1 else 1 for s in steps])[0]
+    span = (w - 1) * abs(st) + 1
+    lo = r.randint(0, pw - span)
+    if st > 0:
+        start, stop = lo, lo + span
+        if st > 1 and r.random() < 0.5:
+            stop = min(pw, stop + r.randint(0, st - 1))      # the same selection with a later stop
+        a = None if start == 0 and r.random() < 0.4 else (start - pw if r.random() < 0.25 and start > 0 else start)
+        b = None if stop >= pw and r.random() < 0.4 else (stop - pw if r.random() < 0.25 and stop < pw else stop)
+        return ["s", a, b, None if st == 1 and r.random() < 0.6 else st]
+    hi = lo + span - 1
+    start, stop = hi, lo - 1
+    a = None if start == pw - 1 and r.random() < 0.4 else (start - pw if r.random() < 0.3 else start)
+    b = None if stop < 0 else (stop - pw if r.random() < 0.3 else stop)
+    return ["s", a, b, st]
+
+
+def gen_wexpr(r, w, depth, sigs, ports, allowed, top=False):
+    """An expression of exactly w bits over Signals and the ports of the `allowed` Instances."""
+    leaves = [["sig", k, sw] for k, sw in enumerate(sigs)] + [["pref", k, ports[k]] for k in allowed] * 2
+    u = r.random()
+    if depth > 0 and u < (0.6 if top else 0.3) and w >= 1:
+        n = r.choice([1, 2, 2, 3]) if w >= 2 else 1
+        n = min(n, w)
+        cuts = sorted(r.sample(range(1, w), n - 1)) if n > 1 else []
+        widths = [b - a for a, b in zip([0] + cuts, cuts + [w])]
+        return ["cat", [gen_wexpr(r, pw, depth - 1, sigs, ports, allowed) for pw in widths]]
+    if u < 0.85:
+        # a slice of something at least as wide
+        wide = [l for l in leaves if l[2] >= w and (l[2] > w or w >= 2)]
+        if depth > 0 and (not wide or r.random() < 0.35):
+            pw = w + r.randint(0 if w >= 2 else 1, 3)
+            parent = gen_wexpr(r, pw, depth - 1, sigs, ports, allowed)
+        elif wide:
+            parent = r.choice(wide)
+            pw = parent[2]
+        else:
+            parent = None
+        if parent is not None:
+            return ["sl", parent, sel_index(r, pw, w)]
+    exact = [l for l in leaves if l[2] == w]
+    if exact:
+        return r.choice(exact)
+    wide = [l for l in leaves if l[2] > w]
+    if wide:
+        parent = r.choice(wide)
+        return ["sl", parent, sel_index(r, parent[2], w)]
+    # nothing wide enough: concatenate
+    k = r.randint(1, w - 1)
+    return ["cat", [gen_wexpr(r, k, 0, sigs, ports, allowed), gen_wexpr(r, w - k, 0, sigs, ports, allowed)]]
+
+
+def gen_system(r):
+    sigs = [r.choice([1, 2, 3, 4, 4, 5]) for _ in range(r.randint(1, 3))]
+    if 1 not in sigs and r.random() < 0.5:
+        sigs.append(1)
+    n = r.choice([2, 2, 3, 3, 4])
+    ports = [r.choice([1, 2, 2, 3, 3, 4]) for _ in range(n)]
+    forward = r.random() < 0.3
+    conns = []
+    for k in range(n):
+        allowed = list(range(k)) if forward else list(range(n))
+        u = r.random()
+        if u < 0.1 or (forward and k == 0 and u < 0.5):
+            conns.append(None)
+            continue
+        same = [j for j in allowed if ports[j] == ports[k] and j != k]
+        if u < 0.17 and same:
+            conns.append(["pref", r.choice(same), ports[k]])
+            continue
+        conns.append(gen_wexpr(r, ports[k], r.choice([1, 2, 2, 3]), sigs, ports, allowed, top=True))
+    # a port that is connected to nothing and referred to by nobody is a missing connection (an error of another kind)
+    for k in range(n):
+        if conns[k] is None and not any(c is not None and k in mentions(c) for c in conns):
+            conns[k] = gen_wexpr(r, ports[k], 1, sigs, ports, list(range(k)) if forward else list(range(n)), top=True)
+    return dict(sigs=sigs, ports=ports, conns=conns)
+
+
+def malform(r, j):
+    """Make one index of one connection select nothing / lie out of range: the system must then be rejected."""
+    sites = []
+    def walk(e):
+        if e[0] == "sl":
+            sites.append(e)
+            walk(e[1])
+        elif e[0] == "cat":
+            for p in e[1]:
+                walk(p)
+    for c in j["conns"]:
+        if c is not None:
+            walk(c)
+    if not sites:
+        return False
+    e = r.choice(sites)
+    pw = lwidth(e[1])
+    e[2] = r.choice([["i", pw], ["i", -pw - 1], ["s", 0, 0, None], ["s", 0, 1, 0], ["s", pw - 1, pw - 1, -1]])
+    return True
+
+
+def lwidth(e):
+    t = e[0]
+    if t in ("sig", "pref"):
+        return e[2]
+    if t == "cat":
+        return sum(lwidth(p) for p in e[1])
+    ix = e[2]
+    return 1 if ix[0] == "i" else len(range(lwidth(e[1]))[slice(ix[1], ix[2], ix[3])])
+
+
+def leaf_id(e):
+    return e[1] if e[0] == "sig" else 100 + e[1]
+
+
+def py_bits(e):
+    """Python's own list semantics on lists of atoms (leaf id, bit)."""
+    t = e[0]
+    if t in ("sig", "pref"):
+        return [(leaf_id(e), b) for b in range(e[2])]
+    if t == "cat":
+        return [b for p in e[1] for b in py_bits(p)]
+    l = py_bits(e[1])
+    ix = e[2]
+    if ix[0] == "i":
+        if not -len(l) <= ix[1] < len(l):
+            raise IndexError
+        return [l[ix[1]]]
+    out = l[slice(ix[1], ix[2], ix[3])]
+    if not out:
+        raise IndexError
+    return out
+
+
+def oracle(j):
+    """Per connected port, per bit: the Signal bit it stands for, or None when it goes round forever."""
+    try:
+        src = {100 + k: py_bits(e) for k, e in enumerate(j["conns"]) if e is not None}
+    except (IndexError, ValueError):
+        return None
+    out = []
+    for pid in sorted(src):
+        row = []
+        for a in src[pid]:
+            seen = set()
+            while a[0] in src and a not in seen:
+                seen.add(a)
+                a = src[a[0]][a[1]]
+            row.append(None if a[0] in src else list(a))
+        out.append(row)
+    return out
+
+
+def mentions(e):
+    t = e[0]
+    if t == "pref":
+        return {e[1]}
+    if t == "sl":
+        return mentions(e[1])
+    if t == "cat":
+        return set().union(*[mentions(p) for p in e[1]]) if e[1] else set()
+    return set()
+
+
+def desc_over_ref(e):
+    """a descending slice with a port reference somewhere below it"""
+    t = e[0]
+    if t == "sl":
+        ix = e[2]
+        if ix[0] == "s" and ix[3] is not None and ix[3] < 0 and mentions(e[1]):
+            return True
+        return desc_over_ref(e[1])
+    if t == "cat":
+        return any(desc_over_ref(p) for p in e[1])
+    return False
+
+
+def system_shape(j):
+    conns = j["conns"]
+    dep = {k: {m for m in mentions(e) if conns[m] is not None} for k, e in enumerate(conns) if e is not None}
+    def reach(k):
+        seen, todo = set(), list(dep[k])
+        while todo:
+            m = todo.pop()
+            if m not in seen:
+                seen.add(m)
+                todo.extend(dep[m])
+        return seen
+    reachable = {k: reach(k) for k in dep}
+    on_loop = {k for k in dep if k in reachable[k]}
+    to_loop = {k for k in dep if k in on_loop or reachable[k] & on_loop}
+    # `untie_source_loops` only rewrites Slice / Concat sources from which a loop is reached
+    untied = {k for k in to_loop if conns[k][0] in ("sl", "cat")}
+    return dict(loop=bool(on_loop), nested=any(e is not None and e[0] != "pref" and mentions(e) for e in conns),
+                desc_in_loop=any(desc_over_ref(conns[k]) for k in untied),
+                desc_acyclic=any(desc_over_ref(conns[k]) for k in dep if k not in to_loop))
+
+
+def c_lsx(e):
+    t = e[0]
+    if t in ("sig", "pref"):
+        return f"(XSig {leaf_id(e)}%N {cz(e[2])})"
+    if t == "sl":
+        return f"(XSlice {c_lsx(e[1])} {c_index(e[2])})"
+    return f"(XConcat {clist(e[1], c_lsx)})"
+
+
+def loop_corpus():
+    s = lambda k, w: ["sig", k, w]
+    p = lambda k, w: ["pref", k, w]
+    sl = lambda e, a, b, st=None: ["sl", e, ["s", a, b, st]]
+    bit = lambda e, i: ["sl", e, ["i", i]]
+    return [
+        # a descending slice of a port reference inside sources that refer to one another (seeded change C03r4-C)
+        dict(sigs=[4, 4], ports=[3, 3], conns=[["cat", [bit(s(0, 4), 0), sl(p(1, 3), 1, None, -1)]], ["cat", [sl(s(1, 4), 0, 2), bit(p(0, 3), 0)]]]),
+        # descending and strided, of a slice of the reference
+        dict(sigs=[4, 4], ports=[4, 4], conns=[["cat", [bit(s(0, 4), 3), sl(sl(p(1, 4), 0, 3), None, None, -2), bit(s(0, 4), 1)]],
+                                                ["cat", [sl(s(1, 4), 0, 3), bit(p(0, 4), 0)]]]),
+        # the loop of fixes/C01F-1: bit 0 of both ports goes round
+        dict(sigs=[1], ports=[2, 2], conns=[["cat", [bit(p(1, 2), 0), s(0, 1)]], ["cat", [bit(p(0, 2), 0), s(0, 1)]]]),
+        # a reversed ring: the two bits of both ports go round two different loops ... or one, crossing over
+        dict(sigs=[1], ports=[2, 2], conns=[sl(p(1, 2), None, None, -1), ["cat", [bit(p(0, 2), 0), bit(p(0, 2), 1)]]]),
+        # a port that mentions itself, reversed: bit 0 is bit 1 is bit 0
+        dict(sigs=[1], ports=[2], conns=[sl(p(0, 2), None, None, -1)]),
+        # the same descending slice without the mutual reference
+        dict(sigs=[4, 4], ports=[3, 3], conns=[["cat", [bit(s(0, 4), 0), sl(p(1, 3), 1, None, -1)]], sl(s(1, 4), 0, 3)]),
+        # an unconnected port, referred to inside a descending strided slice
+        dict(sigs=[2], ports=[4, 2], conns=[None, sl(p(0, 4), -1, None, -2)]),
+    ]
+
+
+def run_loop(run, tier, seed, W):
+    quick = tier == "quick"
+    n_sys = 420 if quick else 6000
+    jobs = loop_corpus()
+    n_corpus = len(jobs)
+    k = malformed = 0
+    while len(jobs) < n_sys:
+        r = core.rng(seed, "C03", "loop", k)
+        k += 1
+        j = gen_system(r)
+        if all(c is None for c in j["conns"]):
+            continue
+        if r.random() < 0.06:
+            if not malform(r, j):
+                continue
+            malformed += 1
+        jobs.append(j)
+    outs = core.run_worker_sharded("c03", jobs, common=dict(kind="loop"))
+    oracles = [oracle(j) for j in jobs]
+
+    def c_env(j):
+        return clist([(100 + k, e) for k, e in enumerate(j["conns"]) if e is not None], lambda p: f"({p[0]}%N, {c_lsx(p[1])})")
+    def c_obs(o):
+        if o["ports"] is None:
+            return "None"
+        return "(Some " + clist(o["ports"], lambda p: f"({copt(p[0])}, {clist(p[1], c_flat)})") + ")"
+    def c_or(orc):
+        if orc is None:
+            return "[]"
+        return clist(orc, lambda row: clist(row, lambda b: "None" if b is None else f"(Some ({b[0]}%N, {cz(b[1])}))"))
+    cases = [f"({c_env(j)}, {c_obs(o)}, {c_or(orc)})" for j, o, orc in zip(jobs, outs, oracles)]
+    bad = core.coq_eval_cases("C03", "loop", LOOP_IMPORTS, "loop_case", cases, "run_cases chk_loop", chunk=100)
+    shapes = [system_shape(j) if orc is not None else dict(loop=False, nested=False, desc_in_loop=False, desc_acyclic=False)
+              for j, orc in zip(jobs, oracles)]
+    cnt = lambda f: sum(1 for sh in shapes if sh[f])
+    rounds = sum(1 for orc in oracles if orc is not None and any(b is None for row in orc for b in row))
+    acc = sum(1 for o in outs if o["ports"] is not None)
+    bits = sum(len(row) for orc in oracles if orc is not None for row in orc)
+    run.stream("reference-loops", len(cases), len({json.dumps(j) for j, sh in zip(jobs, shapes) if sh["nested"]}),
+               corpus=n_corpus, accepted=acc, rejected=len(cases) - acc, malformed=malformed,
+               rejected_valid=sum(1 for o, orc in zip(outs, oracles) if o["ports"] is None and orc is not None),
+               sources_in_a_loop=cnt("loop"), descending_slice_over_reference_in_untied_source=cnt("desc_in_loop"),
+               descending_slice_over_reference_acyclic=cnt("desc_acyclic"), with_bits_going_round=rounds, port_bits_compared=bits,
+               rule="non-trivial = a port reference below a slice or concatenation in some connection; distinct by system",
+               compared="per connected port: public width before elaboration; after h.to_proto every bit of the connection target against "
+                        "Python's list selection followed across the references (Coq specification, cross-checked with a Python-list oracle) "
+                        "and against the model of the bit walker of untie_source_loops; every named slice inside its signal")
+    report(run, "loop", bad, jobs, outs, size=lambda j: (len(json.dumps(j)),),
+           repro=lambda j: f"Signals s<k> of widths {j['sigs']}, Instances i<k> with one port `a` of widths {j['ports']}, connections {json.dumps(j['conns'])} "
+                           f"(['pref',k,w] = i<k>.a); h.to_proto and read the bits of every connection target")
+    lo = dict(loop=60, desc_in_loop=25, desc_acyclic=15) if quick else dict(loop=900, desc_in_loop=400, desc_acyclic=250)
+    missed = [f"{f}={cnt(f)}<{v}" for f, v in lo.items() if cnt(f) < v]
+    if rounds < (15 if quick else 250):
+        missed.append(f"rounds={rounds}")
+    if missed:
+        run.violation("C03:coverage:loop", "coverage target missed in stream reference-loops: " + ", ".join(missed),
+                      dict(kind="coverage"), found_input=False)
+    run.sample(dict(stream="loop", case=jobs[-1], impl=outs[-1], oracle=oracles[-1]))
+    return len(jobs)
